@@ -40,7 +40,10 @@ class footnotetext(footnote):
     
     def invoke(self, tex):
         output = footnote.invoke(self, tex)
-        self.mark = self.ownerDocument.userdata.get('footnotemarks',[None]).pop(0)
+        # The text belongs to the oldest \footnotemark that has none yet, if
+        # there is one
+        marks = self.ownerDocument.userdata.get('footnotemarks', [])
+        self.mark = marks.pop(0) if marks else None
         return output
 
 #
